@@ -35,22 +35,51 @@ def refuses(case):
 
 
 def expected_tests(case, basenames):
-    """{test method name: what it guards}.  For two output files whose
-    sanitised names coincide the second name is not documented: None is
-    returned for 'unknown names' and the caller only counts tests."""
-    tests = {'test_no_exception': ('exception',), 'test_exit_code': ('status',)}
+    """-> (tests, names_ok, groups)
+
+    tests: {documented test method name: guard} for every guard whose test
+    name the documentation fixes; guard = ('exception',) ('status',)
+    ('stdout',) ('stderr',) or ('file', i).
+    groups: {'test_<sanitised>': [guards]} for guards whose documented names
+    coincide (same base name in two directories, names that differ only in
+    non-alphanumerics, a file called like a stream test).  How the generator
+    tells those apart is not documented: any test whose name starts with the
+    group's prefix is a candidate for every member, but there must be one
+    test per member (see expected_count) and each member's change must be
+    reported by a test of its own.
+    names_ok: no such group exists."""
+    wanted = [('test_no_exception', ('exception',)),
+              ('test_exit_code', ('status',))]
     if not case.get('no_stdout'):
-        tests['test_stdout'] = ('stdout',)
+        wanted.append(('test_stdout', ('stdout',)))
     if not case.get('no_stderr'):
-        tests['test_stderr'] = ('stderr',)
-    names_ok = True
+        wanted.append(('test_stderr', ('stderr',)))
     for i, bn in enumerate(basenames):
-        t = 'test_' + sanitize(bn)
-        if t in tests:
-            names_ok = False
-            continue
-        tests[t] = ('file', i)
-    return tests, names_ok
+        wanted.append(('test_' + sanitize(bn), ('file', i)))
+    byname = {}
+    for t, gd in wanted:
+        byname.setdefault(t, []).append(gd)
+    tests = dict((t, g[0]) for t, g in byname.items() if len(g) == 1)
+    groups = dict((t, g) for t, g in byname.items() if len(g) > 1)
+    # a documented name that is a prefix of a group candidate is ambiguous too
+    return tests, not groups, groups
+
+
+def collision_kind(case, basenames):
+    """why names are not documented, for violation signatures"""
+    kinds = set()
+    streams = set(['stdout', 'stderr', 'exit_code', 'no_exception'])
+    for i, a in enumerate(basenames):
+        if sanitize(a) in streams:
+            kinds.add('stream-name')
+        for b in basenames[i + 1:]:
+            if a == b:
+                kinds.add('same-basename')
+            elif a.lower() == b.lower():
+                kinds.add('case-only')
+            elif sanitize(a) == sanitize(b):
+                kinds.add('sanitised-equal')
+    return '+'.join(sorted(kinds)) or '-'
 
 
 def expected_count(case, basenames):
